@@ -4,11 +4,15 @@ import (
 	"context"
 	"fmt"
 	"net"
+	"os"
+	"regexp"
 	"strings"
+	"sync"
 	"testing"
 	"time"
 
 	"go.temporal.io/server/api/adminservice/v1"
+	"go.temporal.io/server/common/log/tag"
 	"google.golang.org/grpc"
 
 	"github.com/temporalio/s2s-proxy/config"
@@ -23,25 +27,23 @@ import (
 // lands on one instance; tasks for a shard owned by the other instance must travel over the
 // intra-proxy stream and arrive exactly once, and acknowledgements must find their way back.
 
-func udpTCPFreePort() int {
-	for {
-		l, err := net.Listen("tcp", "127.0.0.1:0")
-		if err != nil {
-			continue
-		}
-		port := l.Addr().(*net.TCPAddr).Port
-		u, err := net.ListenPacket("udp", fmt.Sprintf("127.0.0.1:%d", port))
-		l.Close()
-		if err != nil {
-			continue
-		}
-		u.Close()
-		return port
-	}
+func udpTCPFreePort() int { return freePort(true) }
+
+// fwdFail: forwarding failures one instance reported for one (source, target shard) pair although it
+// named a known owner with a known address
+type fwdFail struct {
+	n           int
+	first, last time.Time
+	owner, line string
 }
 
-func clusterRouting(seed int64) (viol []rec.Violation, counts map[string]int64, inconclusive string) {
+var reFwdPair = regexp.MustCompile(`task-target-shard=(\(id: \d+, shard: \d+\)).*owner=(\S+)`)
+
+// variant: "" (both instances start together, then all streams connect) | "late-joiner" (see below)
+func clusterRouting(seed int64, variant string) (viol []rec.Violation, counts map[string]int64, inconclusive string) {
 	counts = map[string]int64{}
+	var failMu sync.Mutex
+	fails := map[string]*fwdFail{}
 	nL, nR := 2, 2
 	sc := &routesim.Scenario{Class: "fair", Seed: seed, NL: nL, NR: nR, PeriodMS: 300, NWf: 11, Scripts: map[string][]routesim.Batch{}, Final: map[string]int64{}, Targets: map[string]routesim.TargetBeh{}, Window: 4}
 	recd := routesim.NewRecorder(sc)
@@ -67,10 +69,10 @@ func clusterRouting(seed int64) (viol []rec.Violation, counts map[string]int64, 
 	defer L.srv.Stop()
 	defer R.srv.Stop()
 	type px struct {
-		name         string
-		in, out      string
-		mlPort       int
-		cc           *proxy.ClusterConnection
+		name    string
+		in, out string
+		mlPort  int
+		cc      *proxy.ClusterConnection
 	}
 	ps := []*px{{name: "proxy-a"}, {name: "proxy-b"}}
 	for _, p := range ps {
@@ -80,29 +82,95 @@ func clusterRouting(seed int64) (viol []rec.Violation, counts map[string]int64, 
 	var probes []*fakes.Probe
 	ctx, cancel := context.WithCancel(context.Background())
 	defer cancel()
-	for i, p := range ps {
+	startInst := func(i int) string {
+		p := ps[i]
 		ml := &config.MemberlistConfig{Enabled: true, NodeName: p.name, BindAddr: "127.0.0.1", BindPort: p.mlPort, ProxyAddresses: addrs}
 		if i > 0 {
 			ml.JoinAddrs = []string{fmt.Sprintf("127.0.0.1:%d", ps[0].mlPort)}
 		}
 		cc, err := proxy.NewClusterConnection(ctx, config.ClusterConnConfig{Name: "verif-" + p.name,
-			Local:  config.ClusterDefinition{ConnectionType: config.ConnTypeTCP, TcpClient: config.TCPTLSInfo{ConnectionString: L.lis.Addr().String()}, TcpServer: config.TCPTLSInfo{ConnectionString: p.out}},
-			Remote: config.ClusterDefinition{ConnectionType: config.ConnTypeTCP, TcpClient: config.TCPTLSInfo{ConnectionString: R.lis.Addr().String()}, TcpServer: config.TCPTLSInfo{ConnectionString: p.in}},
+			Local:            config.ClusterDefinition{ConnectionType: config.ConnTypeTCP, TcpClient: config.TCPTLSInfo{ConnectionString: L.lis.Addr().String()}, TcpServer: config.TCPTLSInfo{ConnectionString: p.out}},
+			Remote:           config.ClusterDefinition{ConnectionType: config.ConnTypeTCP, TcpClient: config.TCPTLSInfo{ConnectionString: R.lis.Addr().String()}, TcpServer: config.TCPTLSInfo{ConnectionString: p.in}},
 			ShardCountConfig: config.ShardCountConfig{Mode: config.ShardCountRouting, LocalShardCount: int32(nL), RemoteShardCount: int32(nR)},
 			MemberlistConfig: ml,
-		}, func() *fakes.Probe { pr := fakes.NewProbe(seed + int64(i)); probes = append(probes, pr); return pr }())
+		}, func() *fakes.Probe {
+			pr := fakes.NewProbe(seed + int64(i))
+			pname := p.name
+			var dbgF *os.File
+			if dbg := os.Getenv("VERIF_WIRE_LOG"); dbg != "" {
+				dbgF, _ = os.OpenFile(fmt.Sprintf("%s.%d.%s", dbg, seed, p.name), os.O_CREATE|os.O_WRONLY|os.O_TRUNC, 0o644)
+			}
+			var mu sync.Mutex
+			pr.Sink = func(level, msg string, tags []tag.Tag) {
+				if dbgF != nil {
+					mu.Lock()
+					fmt.Fprintf(dbgF, "%s %s %-5s %s %s\n", time.Now().Format("15:04:05.000"), pname, level, msg, fakes.TagString(tags))
+					mu.Unlock()
+				}
+				if strings.HasPrefix(msg, "Failed to forward replication messages to shard owner via intra-proxy") {
+					ts := fakes.TagString(tags)
+					if m := reFwdPair.FindStringSubmatch(ts); m != nil {
+						key := pname + " -> " + m[2] + " target " + m[1]
+						failMu.Lock()
+						ff := fails[key]
+						if ff == nil {
+							ff = &fwdFail{first: time.Now(), owner: m[2]}
+							fails[key] = ff
+						}
+						ff.n++
+						ff.last = time.Now()
+						if len(ts) > 400 {
+							ts = ts[:400]
+						}
+						ff.line = msg + " " + ts
+						failMu.Unlock()
+					}
+				}
+			}
+			probes = append(probes, pr)
+			return pr
+		}())
 		if err != nil {
-			return nil, counts, "NewClusterConnection: " + err.Error()
+			return "NewClusterConnection: " + err.Error()
 		}
 		p.cc = cc
 		cc.Start()
+		return ""
 	}
 	// shard i of each cluster connects to instance (i mod 2)
-	for i := 1; i <= nR; i++ {
-		go R.runTarget(ctx, ps[i%2].in, i)
+	connectStreams := func(inst int) {
+		for i := 1; i <= nR; i++ {
+			if i%2 == inst {
+				go R.runTarget(ctx, ps[inst].in, i)
+			}
+		}
+		for i := 1; i <= nL; i++ {
+			if i%2 == inst {
+				go L.runTarget(ctx, ps[inst].out, i)
+			}
+		}
 	}
-	for i := 1; i <= nL; i++ {
-		go L.runTarget(ctx, ps[i%2].out, i)
+	if variant == "late-joiner" {
+		// instance a is up and serving its shards; instance b then starts, joins (its state is still empty
+		// when the join exchanges states) and only afterwards gets its shards' streams - a rolling restart
+		if e := startInst(0); e != "" {
+			return nil, counts, e
+		}
+		connectStreams(0)
+		time.Sleep(2 * time.Second)
+		if e := startInst(1); e != "" {
+			return nil, counts, e
+		}
+		time.Sleep(1500 * time.Millisecond)
+		connectStreams(1)
+	} else {
+		for i := range ps {
+			if e := startInst(i); e != "" {
+				return nil, counts, e
+			}
+		}
+		connectStreams(0)
+		connectStreams(1)
 	}
 	// ownership reaches the other instance with the next memberlist push/pull (15 s for the local profile,
 	// 30 s at most); the intra-proxy streams are reconciled every second after that
@@ -127,6 +195,21 @@ func clusterRouting(seed int64) (viol []rec.Violation, counts map[string]int64, 
 			viol = append(viol, x)
 		}
 	}
+	// a message for a shard whose owner is known (the instance names it, with its address) and up - the
+	// cluster has not changed since start - must be handed to that owner. Reports of "undelivered" while a
+	// peer stream is being set up are expected; the same pair failing for 20 s and up to the end is not.
+	end := time.Now()
+	failMu.Lock()
+	for key, ff := range fails {
+		counts["forward_failures_reported"] += int64(ff.n)
+		if !done && ff.n >= 5 && ff.last.Sub(ff.first) > 20*time.Second && end.Sub(ff.last) < 6*time.Second {
+			viol = append(viol, rec.Violation{Prop: "C09", Sig: "cluster-routing:known-owner-never-handed-message",
+				What: fmt.Sprintf("%s: %d forwarding attempts over %.0f s, up to the end of the run, were all reported undelivered although the instance knew the owner and its address and the membership never changed; %d of %d tasks never arrived (variant %q)",
+					key, ff.n, ff.last.Sub(ff.first).Seconds(), cs["tasks"]-cs["tasks_delivered"], cs["tasks"], variant),
+				Witness: map[string]any{"pair": key, "attempts": ff.n, "last_report": ff.line, "variant": variant, "seed": seed}})
+		}
+	}
+	failMu.Unlock()
 	if !done && len(viol) == 0 {
 		if cs["tasks"] > 0 && cs["tasks_delivered"] < cs["tasks"] {
 			inconclusive = fmt.Sprintf("only %d of %d tasks were delivered within the time allowed (ownership may not have propagated yet)", cs["tasks_delivered"], cs["tasks"])
@@ -166,8 +249,10 @@ func TestClusterRouting(t *testing.T) {
 		if !rec.Want(idx, name) {
 			continue
 		}
-		out.Begin(name, map[string]any{"instances": 2, "nL": 2, "nR": 2})
-		viol, counts, inc := clusterRouting(rec.Mix(rec.Seed(), name))
+		variant := []string{"", "late-joiner", "late-joiner"}[idx%3]
+		out.Begin(name, map[string]any{"instances": 2, "nL": 2, "nR": 2, "variant": variant})
+		viol, counts, inc := clusterRouting(rec.Mix(rec.Seed(), name), variant)
+		counts["runs_variant_"+map[string]string{"": "together", "late-joiner": "late_joiner"}[variant]] = 1
 		l := rec.Line{Case: name, Viol: dedupe(viol), Counts: counts, Class: name}
 		if inc != "" && len(viol) == 0 {
 			l.Verdict, l.Why = rec.Inconclusive, inc
